@@ -32,6 +32,28 @@ class Model:
 		self.frames = defaultdict(list)
 		self.pairs = set()     # (ring position, offset) exercised
 		self.max_fill = 0
+		self.events = []       # one-shot GSM-time events: (fn, p3, toks), in list order
+		self.fn0 = 0           # GSM frame number of model frame 0
+
+	def gsmtime_add(self, fn, p3, toks):
+		""" -> expected rc: 0, or 'busy' when all 16 event slots are taken """
+		if len(self.events) >= 16:
+			return "busy"
+		k = len(self.events)
+		for i, ev in enumerate(self.events):
+			if ev[0] > fn:
+				k = i
+				break
+		self.events.insert(k, (fn, p3, toks))
+		return 0
+
+	def gsmtime_execute(self, cur):
+		""" -> number of events fired; their sets start one frame after the current one """
+		fire = [ev for ev in self.events if ev[0] == cur + 2]
+		self.events = [ev for ev in self.events if ev[0] != cur + 2]
+		for (fn, p3, toks) in fire:
+			self.schedule_set(1, p3, toks)
+		return len(fire)
 
 	def fill(self, frame):
 		return len(self.frames[frame])
@@ -58,6 +80,21 @@ class Model:
 		added = []
 		frame_off = off
 		seps = 0
+		# a set that touches a frame whose content is not known exactly: nothing can be predicted
+		fo = off
+		for tk in toks:
+			if tk == "f":
+				fo += 1
+			elif self.has_optional(self.now + fo):
+				fo = off
+				for tk2 in toks:
+					if tk2 == "f":
+						fo += 1
+						continue
+					e = Entry((tk2[1], tk2[2], p3), tk2[0])
+					e.optional = True
+					self.frames[self.now + fo].append(e)
+				return None
 		for tk in toks:
 			if tk == "f":
 				frame_off += 1
@@ -65,8 +102,6 @@ class Model:
 				continue
 			t = self.now + frame_off
 			self.pairs.add((self.now % DEPTH, frame_off))
-			if self.has_optional(t):
-				raise common.HarnessError("generator scheduled a set into an ambiguous frame")
 			if self.fill(t) >= CAP:
 				# error reported; what was placed before the overflow may stay
 				for e in added:
@@ -127,8 +162,33 @@ def check_case(ctx, idx, ops, lines):
 			ctx.count("schedule_set_calls")
 			if exp == -1:
 				ctx.count("overflow_attempts")
-			if rc != exp:
+			if exp is not None and rc != exp:
 				return (k, "tdma_schedule_set returned %d, expected %d" % (rc, exp))
+		elif kind == "G":
+			_, fn, p3, toks = op
+			exp = m.gsmtime_add(fn, p3, toks)
+			l = take()
+			if l is None or not l.startswith("r G "):
+				return (k, "no result line for sched_gsmtime (got %r)" % l)
+			rc = int(l[4:])
+			ctx.count("gsmtime_events")
+			if exp == "busy":
+				ctx.count("gsmtime_busy")
+				if rc >= 0:
+					return (k, "sched_gsmtime returned %d with all 16 event slots taken" % rc)
+			elif rc != 0:
+				return (k, "sched_gsmtime returned %d, expected 0" % rc)
+		elif kind == "E":
+			_, fn = op
+			exp = m.gsmtime_execute(fn)
+			l = take()
+			if l is None or not l.startswith("r E "):
+				return (k, "no result line for sched_gsmtime_execute (got %r)" % l)
+			rc = int(l[4:])
+			if exp:
+				ctx.count("gsmtime_fired", exp)
+			if rc != exp:
+				return (k, "sched_gsmtime_execute(%d) fired %d events, %d are due two frames ahead" % (fn, rc, exp))
 		elif kind == "A":
 			if m.frames.get(m.now):
 				raise common.HarnessError("generator advanced over a non-empty frame")
@@ -227,7 +287,7 @@ def check_case(ctx, idx, ops, lines):
 			raise common.HarnessError("unknown op %r" % (op,))
 	if pos != len(lines):
 		return (len(ops), "driver printed %d extra lines: %r" % (len(lines) - pos, lines[pos:pos + 3]))
-	left = [(f, e.id) for f, es in m.frames.items() for e in es if not e.optional]
+	left = [(f, e.id) for f, es in m.frames.items() for e in es if not e.optional] + [("event", ev[0]) for ev in m.events]
 	if left:
 		raise common.HarnessError("case ends with scheduled items never flushed: %r" % left[:3])
 	ctx.extra.setdefault("_pairs", set()).update(m.pairs)
@@ -242,6 +302,8 @@ class Gen:
 		self.ops = []
 		self.next_p3 = r.randrange(0, 60000)
 		self.used = set()
+		self.gsmtime = False
+		self.fn0 = 0
 
 	def new_id(self, p3 = None):
 		r = self.r
@@ -316,9 +378,31 @@ class Gen:
 					m.schedule(foff, Entry(fid, fprio))
 		m.frames[m.now] = []
 
+	def op_gsmtime(self):
+		""" a one-shot set at an absolute GSM time (must be at least two frames ahead) """
+		r, m = self.r, self.m
+		cur = self.fn0 + m.now
+		fn = cur + r.choice((2, 2, 3, 4, 10, 24, 25, 26, 40))
+		p3 = self.new_id()[2]
+		toks = []
+		nfr = r.randint(1, 3)
+		for j in range(nfr):
+			for _ in range(r.randint(0 if j else 1, 3)):
+				id_ = self.new_id(p3)
+				toks.append((self.prio(), id_[0], id_[1]))
+			if j < nfr - 1:
+				toks.append("f")
+		self.ops.append(("G", fn, p3, toks))
+		m.gsmtime_add(fn, p3, toks)
+
 	def op_advance(self):
 		if self.m.frames.get(self.m.now):
 			self.op_exec()
+		if self.gsmtime:
+			# the firmware's frame interrupt: execute, then the one-shot events, then advance
+			cur = self.fn0 + self.m.now
+			self.ops.append(("E", cur))
+			self.m.gsmtime_execute(cur)
 		self.ops.append(("A",))
 		self.m.frames.pop(self.m.now, None)
 		self.m.advance()
@@ -329,8 +413,13 @@ class Gen:
 		for _ in range(r.randrange(DEPTH)):
 			self.op_advance()
 		mode = r.random()
+		self.gsmtime = r.random() < 0.3
+		self.fn0 = r.choice((0, 1000, 2715648 - 3000, r.randrange(2715648 - 3000)))
 		for _ in range(nops):
 			k = r.random()
+			if self.gsmtime and k < 0.15:
+				self.op_gsmtime()
+				continue
 			if mode < 0.15 and k < 0.5:
 				# fill one bucket to 7 / 8 / 9+ items
 				offs = self.free_offsets()
@@ -357,7 +446,7 @@ class Gen:
 		for k in range(8 * DEPTH):
 			self.op_exec()
 			self.op_advance()
-			if k >= DEPTH and not any(self.m.frames.values()):
+			if k >= DEPTH and not any(self.m.frames.values()) and not self.m.events:
 				break
 		return self.ops
 
@@ -376,6 +465,11 @@ def render(idx, ops):
 		elif k == "T":
 			_, off, p3, toks = op
 			out.append("T %d %d %s" % (off, p3, " ".join("f" if t == "f" else "i:%d:%d:%d" % t for t in toks)))
+		elif k == "G":
+			_, fn, p3, toks = op
+			out.append("G %d %d %s" % (fn, p3, " ".join("f" if t == "f" else "i:%d:%d:%d" % t for t in toks)))
+		elif k == "E":
+			out.append("E %d" % op[1])
 		else:
 			out.append(k)
 	return ("\n".join(out) + "\n").encode()
@@ -385,7 +479,8 @@ def build(tag = "c08"):
 	bd = cbuild.BuildDir(tag)
 	binary = cbuild.compile_link(bd, "tdma_drv",
 		[os.path.join(cbuild.CDIR, "drivers/tdma_drv.c"),
-		 os.path.join(cbuild.FW, "layer1/tdma_sched.c")],
+		 os.path.join(cbuild.FW, "layer1/tdma_sched.c"),
+		 os.path.join(cbuild.FW, "layer1/sched_gsmtime.c")],
 		includes = cbuild.firmware_includes(bd),
 		cflags = cbuild.GC[0] + ["-fsanitize=bounds"], ldflags = cbuild.GC[1])
 	return bd, binary
@@ -430,8 +525,10 @@ def ops_unjson(lst):
 			if chain is not None:
 				chain = (chain[0], chain[1], tuple(chain[2]))
 			out.append((k, o[1], o[2], tuple(o[3]), chain))
-		elif k == "T":
+		elif k in ("T", "G"):
 			out.append((k, o[1], o[2], ["f" if t == "f" else tuple(t) for t in o[3]]))
+		elif k == "E":
+			out.append((k, o[1]))
 		else:
 			out.append((k,))
 	return out
@@ -439,7 +536,8 @@ def ops_unjson(lst):
 
 def run(ctx):
 	ctx.rule = ("random op scripts (schedule, chained schedule from inside a callback, schedule_set of up to 6 frames x 4 "
-		"items, execute, advance, reset; buckets filled to 7/8/9+ items; arbitrary starting ring position; priorities "
+		"items, execute, advance, reset, and in 30% of the scripts one-shot sets at absolute GSM times through sched_gsmtime / "
+		"sched_gsmtime_execute called once per frame like the firmware's frame interrupt; buckets filled to 7/8/9+ items; arbitrary starting ring position; priorities "
 		"over int16 with ties) ending with a 26-frame flush; distinct = distinct scripts by hash; all non-trivial "
 		"(every script schedules and executes items)")
 	ctx.assume("callbacks report success; every non-empty frame is executed before the scheduler advances past it (as the firmware does)")
@@ -467,6 +565,7 @@ def run(ctx):
 	ctx.require("nested_schedules", 10)
 	ctx.require("resets", 5)
 	ctx.require("pairs_exercised", 625)
+	ctx.require("gsmtime_fired", 100)
 
 
 def replay(ctx, data):
